@@ -128,11 +128,16 @@ OptionsOK(r, q) ==
   ELSE IF ~TypeOK(r, q) THEN {FALSE}
   ELSE DomainOK(r, q)
 
+\* a pattern that is nothing but '*' (the usual spelling of "every URL, restricted by options only") is
+\* not one of the unspecified degenerate spellings: '*' matches any run of characters, so it matches
+MatchAll(r) == r.left = "none" /\ ~r.right /\ Len(r.body) >= 1 /\ \A i \in DOMAIN r.body : r.body[i] = "*"
+
 \* does rule r hit request q (pattern and options)
 Hit(r, q) ==
   LET o == OptionsOK(r, q) IN
   IF o = {FALSE} THEN {FALSE}
-  ELSE And3(o, IF Degenerate(Pat(r)) THEN {TRUE, FALSE} ELSE IdealMatch(Pat(r), q))
+  ELSE And3(o, IF MatchAll(r) THEN {TRUE}
+               ELSE IF Degenerate(Pat(r)) THEN {TRUE, FALSE} ELSE IdealMatch(Pat(r), q))
 
 --------------------------------------------------------------------------
 \* categories, tags, badfilter
